@@ -404,6 +404,20 @@ func (s *genState) body(depth int, inCmd bool) []Line {
 		// rapid favours small integers: scramble so that every item kind gets its share
 		k := (rapid.IntRange(0, 99).Draw(t, "item") * 37) % 100
 		switch {
+		case k < 5 && s.rx.Words > 0:
+			// a cluster of literal entries that share a tail (factored at the front of the alternation)
+			// and a stem (factored at its back): (?:s1|s2)T|S(?:t1|t2)
+			stems := rapid.Permutation([]string{"some", "another", "any", "no"}).Draw(t, "cstems")
+			tails := rapid.Permutation([]string{" cat", " dog", " bird", "fish"}).Draw(t, "ctails")
+			tail := rapid.SampledFrom([]string{" line", " thing", "x", "-end"}).Draw(t, "ctail")
+			stem := rapid.SampledFrom([]string{"big", "small ", "z", "pre-"}).Draw(t, "cstem")
+			for _, e := range []string{stems[0] + tail, stems[1] + tail, stem + tails[0], stem + tails[1]} {
+				add(Line{K: KEntry, T: e})
+			}
+			s.entries += 4
+			sinceFlush += 4
+			loneAltPending = false
+			s.label("factoring-cluster")
 		case k < 45:
 			e := s.entry(false)
 			add(Line{K: KEntry, T: e})
